@@ -143,6 +143,45 @@ def threshold_raise_while_paused():
     return w.scenario("directed-threshold-raise-while-paused", {"thr": 1, "seed": 17}, cmds)
 
 
+def shared_spend_discard(order=0):
+    """Outputs spent on two forks (by the same transaction and by two different ones); one fork is discarded
+    while the other stays in the tree (kept unstable by a further fork below it), then that one stabilises too
+    (C20, C01, C05)."""
+    w = _w(21 + order)
+    b1 = w.mine(1, ntx=0, coinbase_out=cb(1, 1000))
+    b2 = w.mine(b1, ntx=0, coinbase_out=cb(1, 400))
+    o1 = (w.blocks[b1]["txs"][0], 1)
+    o2 = (w.blocks[b2]["txs"][0], 1)
+    t_same = w.new_tx([o1], [cb(2, 900), cb(1, 50)])          # mined on both forks
+    t_a = w.new_tx([o2], [cb(2, 300)])                        # fork a spends o2 one way
+    t_c = w.new_tx([o2], [cb(3, 100), cb(1, 200)])            # fork c another way
+    a3 = w.mine(b2, ntx=0, coinbase_out=cb(3, 5))
+    w.blocks[a3]["txs"] += [t_same, t_a]
+    c3 = w.mine(b2, ntx=0, coinbase_out=cb(3, 6))
+    w.blocks[c3]["txs"] += [t_same, t_c]
+    t_a2 = w.new_tx([(t_same, 1)], [cb(1, 900)])              # the shared transaction's output spent below a3 ...
+    t_d = w.new_tx([(t_same, 1), (t_a, 1)], [cb(3, 1100)])    # ... in two ways
+    a4 = w.mine(a3, ntx=0, coinbase_out=cb(3, 5))
+    w.blocks[a4]["txs"].append(t_a2)
+    d4 = w.mine(a3, ntx=0, coinbase_out=cb(2, 7))
+    w.blocks[d4]["txs"].append(t_d)
+    d5 = w.mine(d4, ntx=0, coinbase_out=cb(2, 8))
+    tail = [a4]
+    for _ in range(5):
+        tail.append(w.mine(tail[-1], ntx=0, coinbase_out=cb(3, 5)))
+    first = [b1, b2, a3, c3, a4, d4, d5] if order == 0 else [b1, b2, c3, a3, d4, a4, d5]
+    cmds = [{"c": "tick", "dt": 100000}]
+    probe = [q("info"), q("fees")] + [x for a in (1, 2, 3) for x in (q("utxos", addr=a, mc=-1), q("balance", addr=a, mc=0),
+                                                                    q("balance", addr=a, mc=1), q("utxos", addr=a, mc=2))]
+    for b in first:
+        cmds += [{"c": "offer", "initial": complete([b])}, {"c": "hb"}, {"c": "hb"}] + probe
+    for b in tail[1:]:
+        cmds += [{"c": "offer", "initial": complete([b])}, {"c": "hb"}, {"c": "hb"}, {"c": "hb"}] + probe
+        if order == 1 and b == tail[2]:
+            cmds += [{"c": "upgrade", "d": {}}] + probe
+    return w.scenario(f"directed-shared-spend-discard-{order}", {"thr": 2, "seed": 21 + order}, cmds)
+
+
 def directed(pid, tier="quick"):
     S = []
     if pid in ("C01", "C05", "C06"):
@@ -157,6 +196,8 @@ def directed(pid, tier="quick"):
         S += [upgrade_points()]
     if pid in ("C08", "C03"):
         S += [threshold_raise_while_paused()]
+    if pid in ("C20", "C05", "C01"):
+        S += [shared_spend_discard(0), shared_spend_discard(1)]
     if pid == "C03" and tier == "thorough":
         # several hundred blocks each: the real adaptive depth bound and the three-way tie
         S += [depth_bound_chain("testnet", 144, 0), depth_bound_chain("regtest", 6, 30), tie_depth_escape("testnet")]
@@ -341,6 +382,10 @@ def cycles_history(seed, nblocks=8):
 MUTS = ["exact", "exact", "trunc", "extend", "flip", "flip", "garbage", "empty", "prepend"]
 
 
+TX_SHAPES = ["null_prev", "null_prev", "null_prev_all", "zero_txid", "max_vout", "dup_inputs", "huge_value", "zero_value",
+             "op_return", "empty_script", "big_script", "neg_version", "max_version", "max_locktime"]
+
+
 def send_tx_cmds(rng, fees, n, nets=None):
     out = []
     for _ in range(n):
@@ -355,6 +400,14 @@ def send_tx_cmds(rng, fees, n, nets=None):
         elif k == "garbage":
             mut["len"] = rng.choice([1, 4, 10, 60, 200])
         tx = {"nin": rng.choice([0, 1, 1, 2, 3]), "nout": rng.choice([0, 1, 1, 2, 4]), "w": rng.random() < 0.5, "salt": rng.randint(0, 1000)}
+        if rng.random() < 0.35:
+            # well-formed transactions of unusual shape: still exactly one serialised transaction
+            tx["shape"] = rng.choice(TX_SHAPES)
+            if rng.random() < 0.5:
+                tx["nin"] = rng.choice([1, 1, 2, 40])
+                tx["nout"] = rng.choice([1, 2, 40])
+            if rng.random() < 0.6:
+                mut = {"k": "exact"}
         cmd = {"c": "send_tx", "tx": tx, "mut": mut}
         if nets:
             cmd["net"] = rng.choice(nets)
